@@ -6,8 +6,12 @@ import time
 from sim import bootstrap
 
 VERIF = bootstrap.VERIF
-EVIDENCE_DIR = os.path.join(VERIF, "evidence")
-REPLAY_DIR = os.path.join(VERIF, "replays")
+# VERIF_OUT redirects evidence and replay files (used when the checks are pointed
+# at a scratch copy of the repository, so that /verif/evidence only ever holds
+# results for /repo itself)
+_OUT = os.environ.get("VERIF_OUT") or VERIF
+EVIDENCE_DIR = os.path.join(_OUT, "evidence")
+REPLAY_DIR = os.path.join(_OUT, "replays")
 KNOWN = os.path.join(VERIF, "known_findings.json")
 
 EXIT_OK, EXIT_VIOLATION, EXIT_HARNESS = 0, 1, 2
